@@ -1259,7 +1259,8 @@ class TmpStore:
         # a copy of the index here.  An alternative would be to ensure that
         # all callers pass copies.  As is, our callers do not make copies.
         self.index = index.copy()
-        self.creating = creating
+        # The same holds for `creating`: later savepoints update it.
+        self.creating = creating.copy()
 
 
 class RootConvenience:
